@@ -184,6 +184,7 @@ impl Prop for C05 {
             nodes: 1,
             ops,
             stream: None,
+            hidden_faults: take_hidden_faults(),
             config: format!(
                 "{} prior_state={} heal: n={} id={:?} payload_len={} type={} fill={} benign={} decode_final={}",
                 desc,
